@@ -9,6 +9,7 @@ import (
 	"strings"
 	"sync"
 	"sync/atomic"
+	"time"
 
 	"verifharness/vlib"
 )
@@ -180,28 +181,61 @@ func PathTrie(paths [][]*REdge) *Trie {
 	return t
 }
 
-// StepResult is what one replayed edge produced on the real tree.
-type StepResult struct {
-	Edge  *REdge
-	Path  []*REdge // edges from the initial state up to and including Edge
-	Init  string
+// ---- recording observed steps -------------------------------------------------------
+//
+// The tours TLC generates (from the model of the tree as known_findings.d
+// currently describes it) are used as ACTION SCRIPTS only. The replayer keeps
+// its own current abstract state: the resolver part is always the go/parser
+// projection of the real tree, schema / dirty are its bookkeeping of the user
+// edits it performed. Every executed step is recorded as (pre, action, post);
+// the verdict is given afterwards by TLC (spec/ProjectStep.tla) on the
+// observed pre/post states against the statements' postconditions - never by
+// comparing with the state a model of the implementation predicted. A
+// difference from the tour's predicted state is only counted (Drift).
+
+// StepRec is one step executed on the real tree.
+type StepRec struct {
+	ID    string
+	Kind  string // init | edit | gen | probe
+	Pre   *PState
+	Act   PAction
+	Post  *PState
 	Obs   *Obs
-	Diffs []string // differences between the real tree and the state TLC printed
 	Gen   *GenOutcome
-	Conc  *Conc
+	Path  []*REdge // tour edges executed up to and including this step
+	Init  string
+	Drift bool              // post differs from the state the tour's model predicted (statistics only)
+	Files map[string]string // SDL + resolver files after the step (gen / probe / init)
+	Extra map[string]any
+	Seed  int64
+	Pairs []string
+	SFiles []string
+	V     *Verdict
 }
 
-// Handler decides verdicts. Generate runs the generator for a Generate edge
-// (so that C18 can substitute its multi-process protocol); Step inspects the
-// result of any edge and says whether the subtree below may be replayed
-// (false = the real tree no longer is in the state the remaining path assumes).
+// Verdict is what spec/ProjectStep.tla printed for a step.
+type Verdict struct {
+	Kind      string              `json:"kind"`
+	Viol      []string            `json:"viol"`
+	Explained bool                `json:"explained"`
+	D         []string            `json:"D"`
+	Blame     map[string][]string `json:"-"`
+	IdealEq   bool                `json:"idealEq"`
+	Same      bool                `json:"same"`
+}
+
+// Handler plugs the property-specific execution into the replay.
 type Handler interface {
-	Generate(c *Conc, e *REdge, path []*REdge) GenOutcome
-	Step(r *StepResult) bool
+	// RunGenerate executes a Generate step on the real tree (C18 substitutes its multi-process protocol).
+	RunGenerate(c *Conc, pre *PState, path []*REdge) GenOutcome
+	// WantBuild: compile the package before and after this Generate step (compiledBefore => compiledAfter).
+	WantBuild(pre *PState) bool
+	// AfterGenerate is called while the tree is in the post-state of rec (init or gen); it may add records (C18: second run).
+	AfterGenerate(r *Replayer, c *Conc, rec *StepRec)
 }
 
 type ReplayStats struct {
-	Edges, Generates, Skipped, Inits int64
+	Edges, Generates, Skipped, Inits, Drift, Inapplicable int64
 }
 
 // Replayer replays tries in parallel worker directories.
@@ -217,11 +251,21 @@ type Replayer struct {
 	Stats   ReplayStats
 	mu      sync.Mutex
 	Errs    []string // harness-side problems (Infra)
+	Recs    []*StepRec
+	nextID  int64
 }
 
 func (r *Replayer) infra(format string, a ...any) {
 	r.mu.Lock()
 	r.Errs = append(r.Errs, fmt.Sprintf(format, a...))
+	r.mu.Unlock()
+}
+
+// Add records a step (thread-safe) and gives it an id.
+func (r *Replayer) Add(rec *StepRec) {
+	rec.ID = fmt.Sprintf("%s-%d", r.Name, atomic.AddInt64(&r.nextID, 1))
+	r.mu.Lock()
+	r.Recs = append(r.Recs, rec)
 	r.mu.Unlock()
 }
 
@@ -243,7 +287,6 @@ func (r *Replayer) Run(tries map[string]*Trie) {
 			jobs = append(jobs, job{init, c})
 		}
 	}
-	// biggest subtrees first
 	sort.SliceStable(jobs, func(i, j int) bool {
 		a, _ := jobs[i].sub.Count()
 		b, _ := jobs[j].sub.Count()
@@ -255,6 +298,10 @@ func (r *Replayer) Run(tries map[string]*Trie) {
 	if w < 1 {
 		w = 1
 	}
+	type initState struct {
+		snap Snapshot
+		st   *PState
+	}
 	for k := 0; k < w; k++ {
 		wg.Add(1)
 		go func(k int) {
@@ -262,22 +309,25 @@ func (r *Replayer) Run(tries map[string]*Trie) {
 			name := fmt.Sprintf("%s_w%d", r.Name, k)
 			root := GenRoot(name)
 			conc := NewConc(root, ImportBase(name), r.Seed+int64(k)*1000, r.Pairs, r.Files)
-			initSnap := map[string]Snapshot{}
+			inits := map[string]*initState{}
 			for j := range ch {
-				snap, ok := initSnap[j.init]
+				is, ok := inits[j.init]
 				if !ok {
-					var err error
-					snap, err = r.setupInit(conc, j.init)
-					if err != nil {
-						r.infra("initial generation (%s): %v", name, err)
+					snap, st := r.setupInit(conc, j.init)
+					is = &initState{snap, st}
+					inits[j.init] = is
+				} else if is.st != nil {
+					if err := conc.Restore(is.snap); err != nil {
+						r.infra("restore: %v", err)
 						continue
 					}
-					initSnap[j.init] = snap
-				} else if err := conc.Restore(snap); err != nil {
-					r.infra("restore: %v", err)
+				}
+				if is.st == nil {
+					cn, _ := j.sub.Count()
+					atomic.AddInt64(&r.Stats.Skipped, int64(cn)+1)
 					continue
 				}
-				r.walk(conc, j.init, j.sub, nil)
+				r.walk(conc, j.init, j.sub, nil, is.st)
 			}
 			_ = os.RemoveAll(root)
 		}(k)
@@ -289,31 +339,66 @@ func (r *Replayer) Run(tries map[string]*Trie) {
 	wg.Wait()
 }
 
-// setupInit creates the freshly generated project of an initial state and
-// checks that it projects onto that state.
-func (r *Replayer) setupInit(c *Conc, init string) (Snapshot, error) {
+func (c *Conc) ReportFiles() map[string]string {
+	files := map[string]string{}
+	if snap, err := c.Snapshot(); err == nil {
+		for k, v := range snap {
+			if strings.HasSuffix(k, ".graphqls") || strings.HasSuffix(k, "resolvers.go") || strings.HasSuffix(k, "resolver.go") || k == "gqlgen.yml" {
+				files[k] = string(v)
+			}
+		}
+	}
+	return files
+}
+
+// WithObs returns a copy of the bookkeeping state b whose resolver part is the observation o.
+func WithObs(b *PState, o *Obs) *PState {
+	n := *b
+	n.Meth, n.Helpers, n.Imports, n.Warn, n.Ok = o.Meth, o.Helpers, o.Imports, o.Warn, o.Ok
+	n.Gen = nil
+	return &n
+}
+
+// setupInit creates the freshly generated project of an initial state. The
+// fresh project must project onto that state (Init of Project.tla is the
+// definition of a fresh project); the record carries the differences.
+func (r *Replayer) setupInit(c *Conc, init string) (Snapshot, *PState) {
 	st := r.G.States[init]
 	if err := c.Create(st); err != nil {
-		return nil, err
+		r.infra("create project: %v", err)
+		return nil, nil
 	}
 	g := RunGen(c.Root, GenOpts{Explicit: true})
 	atomic.AddInt64(&r.Stats.Inits, 1)
-	res := &StepResult{Edge: &REdge{A: PAction{Name: "InitialGenerate"}, T: init, TSt: st, SSt: st, S: init}, Init: init, Gen: &g, Conc: c}
-	res.Obs = c.Project()
+	obs := c.Project()
+	book := *st
+	book.Comp, book.Dirty = "unk", "clean"
+	post := WithObs(&book, obs)
+	rec := &StepRec{Kind: "init", Act: PAction{Name: "InitialGenerate"}, Post: post, Obs: obs, Gen: &g, Init: init,
+		Files: c.ReportFiles(), Seed: c.Seed, Pairs: c.Pairs, SFiles: c.Files, Extra: map[string]any{}}
+	diffs := []string{}
 	if !g.OK() {
-		res.Diffs = append(res.Diffs, "generate: "+g.Class)
+		diffs = append(diffs, "generate: "+g.Class)
 	}
-	res.Diffs = append(res.Diffs, st.DiffObs(res.Obs)...)
-	if !r.H.Step(res) {
-		return nil, fmt.Errorf("initial state not reached: %v\n%s", res.Diffs, g.Stderr)
+	diffs = append(diffs, st.DiffObs(obs)...)
+	rec.Extra["initDiffs"] = diffs
+	r.Add(rec)
+	if len(diffs) > 0 {
+		return nil, nil
 	}
-	return c.Snapshot()
+	r.H.AfterGenerate(r, c, rec)
+	snap, err := c.Snapshot()
+	if err != nil {
+		r.infra("snapshot: %v", err)
+		return nil, nil
+	}
+	return snap, post
 }
 
-func (r *Replayer) walk(c *Conc, init string, n *Trie, prefix []*REdge) {
+func (r *Replayer) walk(c *Conc, init string, n *Trie, prefix []*REdge, cur *PState) {
 	path := append(append([]*REdge{}, prefix...), n.Edge)
-	cont := r.exec(c, init, n.Edge, path)
-	if !cont {
+	next := r.exec(c, init, n.Edge, path, cur)
+	if next == nil {
 		cn, _ := n.Count()
 		atomic.AddInt64(&r.Stats.Skipped, int64(cn))
 		return
@@ -336,16 +421,127 @@ func (r *Replayer) walk(c *Conc, init string, n *Trie, prefix []*REdge) {
 				return
 			}
 		}
-		r.walk(c, init, ch, path)
+		r.walk(c, init, ch, path, next)
 	}
 }
 
-// Apply performs the action of edge e on the concrete project (everything but Generate).
-func Apply(c *Conc, e *REdge) error {
-	a := e.A
+var dirtyRank = map[string]int{"clean": 0, "go": 1, "adds": 2, "other": 3}
+
+func maxDirty(a, b string) string {
+	if dirtyRank[a] >= dirtyRank[b] {
+		return a
+	}
+	return b
+}
+
+func hasTok(l []string, t string) bool {
+	for _, x := range l {
+		if x == t {
+			return true
+		}
+	}
+	return false
+}
+
+// Book applies the harness-side bookkeeping of user action a to state s
+// (schema, texists, dirty); ok = false when the action is not applicable to s.
+func (s *PState) Book(a PAction, typeOf func(string) string) (*PState, bool) {
+	n := *s
+	n.Schema = map[string]string{}
+	for k, v := range s.Schema {
+		n.Schema[k] = v
+	}
+	n.Texists = map[string]bool{}
+	for k, v := range s.Texists {
+		n.Texists[k] = v
+	}
+	n.Comp = "unk"
+	has := func(f, p string) bool { m, ok := s.Meth[f][p]; return ok && m.exists() }
+	anyMeth := func(f string) bool {
+		for _, m := range s.Meth[f] {
+			if m.exists() {
+				return true
+			}
+		}
+		return false
+	}
+	live := func(p string) bool { return s.Schema[p] != "none" && s.Schema[p] != "" }
+	if !s.Ok {
+		return nil, false
+	}
 	switch a.Name {
 	case "EditBody":
-		m := MethRec{Body: a.E.Body, Doc: a.E.Doc, Named: a.E.Named, Uses: e.SSt.Meth[a.F][a.P].Uses}
+		if !has(a.F, a.P) || a.E == nil {
+			return nil, false
+		}
+		m := s.Meth[a.F][a.P]
+		if m.Body == a.E.Body && m.Doc == a.E.Doc && m.Named == a.E.Named {
+			return nil, false
+		}
+		n.Dirty = maxDirty(s.Dirty, "go")
+	case "AddHelper":
+		if !anyMeth(a.F) || hasTok(s.Helpers[a.F], a.H) {
+			return nil, false
+		}
+		n.Dirty = maxDirty(s.Dirty, "go")
+	case "AddImport":
+		if !has(a.F, a.P) || hasTok(s.Meth[a.F][a.P].Uses, a.I) {
+			return nil, false
+		}
+		n.Dirty = maxDirty(s.Dirty, "go")
+	case "AddField":
+		if live(a.P) {
+			return nil, false
+		}
+		n.Schema[a.P] = a.Sf
+		if t := typeOf(a.P); t != "Query" {
+			n.Texists[t] = true
+		}
+		n.Dirty = maxDirty(s.Dirty, "adds")
+	case "RemoveField":
+		if !live(a.P) {
+			return nil, false
+		}
+		n.Schema[a.P] = "none"
+		n.Dirty = "other"
+	case "RenameField":
+		if !live(a.P) || live(a.Q) || a.P == a.Q || typeOf(a.P) != typeOf(a.Q) {
+			return nil, false
+		}
+		n.Schema[a.Q], n.Schema[a.P] = s.Schema[a.P], "none"
+		n.Dirty = "other"
+	case "MoveField":
+		if !live(a.P) || s.Schema[a.P] == a.Sf {
+			return nil, false
+		}
+		n.Schema[a.P] = a.Sf
+		n.Dirty = "other"
+	case "RemoveType":
+		if !s.Texists[a.T] {
+			return nil, false
+		}
+		for p := range n.Schema {
+			if typeOf(p) == a.T {
+				n.Schema[p] = "none"
+			}
+		}
+		n.Texists[a.T] = false
+		n.Dirty = "other"
+	case "Generate":
+		n.Dirty = "clean"
+	default:
+		return nil, false
+	}
+	return &n, true
+}
+
+func pairType(p string) string { t, _ := splitPair(p); return t }
+
+// applyEdit performs user action a on the concrete project in state cur.
+func applyEdit(c *Conc, cur, next *PState, a PAction) error {
+	switch a.Name {
+	case "EditBody":
+		m := MethRec{Body: a.E.Body, Doc: a.E.Doc, Named: a.E.Named, Uses: cur.Meth[a.F][a.P].Uses}
 		return c.SetMethod(a.F, a.P, m)
 	case "AddHelper":
 		return c.AddHelperDecls(a.F, a.H)
@@ -353,30 +549,149 @@ func Apply(c *Conc, e *REdge) error {
 		if err := c.AddImportSpec(a.F, a.I); err != nil {
 			return err
 		}
-		return c.SetMethod(a.F, a.P, e.TSt.Meth[a.F][a.P])
+		m := cur.Meth[a.F][a.P]
+		m.Uses = sortedCopy(append(append([]string{}, m.Uses...), a.I))
+		return c.SetMethod(a.F, a.P, m)
 	case "AddField", "RemoveField", "RenameField", "MoveField", "RemoveType":
-		return c.WriteSchema(e.TSt)
+		return c.WriteSchema(next)
 	}
 	return fmt.Errorf("unknown action %s", a.Name)
 }
 
-func (r *Replayer) exec(c *Conc, init string, e *REdge, path []*REdge) bool {
-	res := &StepResult{Edge: e, Path: path, Init: init, Conc: c}
-	if e.A.Name == "Generate" {
-		if r.Budget > 0 && atomic.LoadInt64(&r.Stats.Generates) >= r.Budget {
-			return false
+// unknownTokens: the projection met text it cannot map back (damaged user code): the history cannot be continued.
+func unknownTokens(o *Obs) bool {
+	for _, ms := range o.Meth {
+		for _, m := range ms {
+			if strings.HasPrefix(m.Body, "?") || strings.HasPrefix(m.Doc, "?") {
+				return true
+			}
 		}
-		atomic.AddInt64(&r.Stats.Generates, 1)
-		g := r.H.Generate(c, e, path)
-		res.Gen = &g
-	} else if err := Apply(c, e); err != nil {
-		r.infra("apply %s: %v", e.A, err)
+	}
+	for _, l := range o.Helpers {
+		for _, h := range l {
+			if strings.HasPrefix(h, "?") {
+				return true
+			}
+		}
+	}
+	for _, l := range o.Imports {
+		for _, h := range l {
+			if strings.HasPrefix(h, "?") {
+				return true
+			}
+		}
+	}
+	for _, l := range o.Warn {
+		for _, w := range l {
+			if strings.HasPrefix(w.K, "?") || strings.HasPrefix(w.Body, "?") || strings.HasPrefix(w.ID, "?") {
+				return true
+			}
+		}
+	}
+	return false
+}
+
+func addsOnly(s *PState) bool {
+	if s.Dirty == "other" {
 		return false
 	}
+	for _, h := range s.Helpers {
+		if len(h) > 0 {
+			return false
+		}
+	}
+	return true
+}
+
+// exec performs one tour edge as an action on the real tree; returns the new current state (nil = stop this history).
+func (r *Replayer) exec(c *Conc, init string, e *REdge, path []*REdge, cur *PState) *PState {
+	a := e.A
+	book, ok := cur.Book(a, pairType)
+	if !ok {
+		atomic.AddInt64(&r.Stats.Inapplicable, 1)
+		return nil // the real tree is not where the tour's model expected it: the action does not apply (drift)
+	}
+	rec := &StepRec{Kind: "edit", Act: a, Path: path, Init: init, Seed: c.Seed, Pairs: c.Pairs, SFiles: c.Files, Extra: map[string]any{}}
+	pre := *cur
+	pre.Comp = "unk"
+	if a.Name == "Generate" {
+		if r.Budget > 0 && atomic.LoadInt64(&r.Stats.Generates) >= r.Budget {
+			return nil
+		}
+		atomic.AddInt64(&r.Stats.Generates, 1)
+		rec.Kind = "gen"
+		build := r.H.WantBuild(cur)
+		if build {
+			if out, err := GoBuild(c.Root); err == nil {
+				pre.Comp = "yes"
+			} else if strings.Contains(err.Error(), "timeout after") {
+				r.infra("go build timeout")
+				return nil
+			} else {
+				pre.Comp = "no"
+				rec.Extra["buildBefore"] = tailStr(out, 600)
+			}
+		}
+		g := r.H.RunGenerate(c, cur, path)
+		rec.Gen = &g
+		if g.Class == "timeout" || g.Class == "crash" {
+			r.infra("generator %s: %s\n%s", g.Class, PathString(path), tailStr(g.Stderr, 1200))
+			return nil
+		}
+	} else if err := applyEdit(c, cur, book, a); err != nil {
+		r.infra("apply %s: %v", a, err)
+		return nil
+	}
 	atomic.AddInt64(&r.Stats.Edges, 1)
-	res.Obs = c.Project()
-	res.Diffs = e.TSt.DiffObs(res.Obs)
-	return r.H.Step(res)
+	rec.Pre = &pre
+	obs := c.Project()
+	rec.Obs = obs
+	var post *PState
+	if obs.Ok {
+		post = WithObs(book, obs)
+	} else { // a file does not parse: the resolver part cannot be observed
+		b := *book
+		b.Meth, b.Helpers, b.Imports, b.Warn, b.Ok, b.Gen = cur.Meth, cur.Helpers, cur.Imports, cur.Warn, false, nil
+		post = &b
+	}
+	if a.Name == "Generate" && pre.Comp == "yes" && obs.Ok {
+		if out, err := GoBuild(c.Root); err == nil {
+			post.Comp = "yes"
+		} else if strings.Contains(err.Error(), "timeout after") {
+			r.infra("go build timeout")
+			return nil
+		} else {
+			post.Comp = "no"
+			rec.Extra["buildAfter"] = tailStr(out, 1200)
+		}
+	} else if a.Name == "Generate" && !obs.Ok {
+		post.Comp = "no"
+	}
+	rec.Post = post
+	if len(e.TSt.DiffObs(obs)) > 0 {
+		rec.Drift = true
+		atomic.AddInt64(&r.Stats.Drift, 1)
+	}
+	if a.Name == "Generate" {
+		rec.Files = c.ReportFiles()
+	}
+	r.Add(rec)
+	if !obs.Ok || unknownTokens(obs) || (rec.Gen != nil && !rec.Gen.OK()) {
+		return nil
+	}
+	if a.Name == "Generate" {
+		r.H.AfterGenerate(r, c, rec)
+	}
+	cont := *post
+	cont.Comp = "unk"
+	return &cont
+}
+
+func tailStr(s string, n int) string {
+	if len(s) > n {
+		return "..." + s[len(s)-n:]
+	}
+	return s
 }
 
 // PathString renders a path for reports.
@@ -386,15 +701,6 @@ func PathString(path []*REdge) string {
 		s = append(s, e.A.String())
 	}
 	return strings.Join(s, " ; ")
-}
-
-// ReplayFromPath is ReplayObject for a path without a step result.
-func ReplayFromPath(c *Conc, path []*REdge) map[string]any {
-	init := ""
-	if len(path) > 0 {
-		init = path[0].S
-	}
-	return ReplayObject(&StepResult{Path: path, Init: init, Conc: c})
 }
 
 // LoadReplay rebuilds graph and path from a recorded scenario.
@@ -442,28 +748,146 @@ func LoadReplay(file string) (*Graph, []*REdge, int64, []string, []string, error
 }
 
 // ReplayObject is the scenario recorded with a violation.
-func ReplayObject(r *StepResult) map[string]any {
-	acts := []json.RawMessage{}
-	for _, e := range r.Path {
-		b, _ := json.Marshal(e.A)
-		acts = append(acts, b)
-	}
-	files := map[string]string{}
-	if r.Conc != nil {
-		if snap, err := r.Conc.Snapshot(); err == nil {
-			for k, v := range snap {
-				if strings.HasSuffix(k, ".graphqls") || strings.HasSuffix(k, "resolvers.go") || strings.HasSuffix(k, "resolver.go") || k == "gqlgen.yml" {
-					files[k] = string(v)
-				}
-			}
-		}
-	}
+func ReplayObject(rec *StepRec) map[string]any {
 	edges := []map[string]json.RawMessage{}
-	for _, e := range r.Path {
+	for _, e := range rec.Path {
 		edges = append(edges, map[string]json.RawMessage{"s": json.RawMessage(e.S), "a": e.Raw, "t": json.RawMessage(e.T)})
 	}
-	return map[string]any{"init": json.RawMessage(r.Init), "path": PathString(r.Path), "actions": acts, "edges": edges,
-		"seed": r.Conc.Seed, "pairs": r.Conc.Pairs, "files": r.Conc.Files, "files_after": files}
+	o := map[string]any{"path": PathString(rec.Path), "edges": edges, "step": rec.Kind,
+		"seed": rec.Seed, "pairs": rec.Pairs, "files": rec.SFiles, "files_after": rec.Files}
+	if rec.Init != "" {
+		o["init"] = json.RawMessage(rec.Init)
+	}
+	if rec.V != nil {
+		o["verdict"] = map[string]any{"violated": rec.V.Viol, "explained_by": rec.V.D, "explained": rec.V.Explained, "blame": rec.V.Blame}
+	}
+	return o
+}
+
+// ---- verdicts: spec/ProjectStep.tla --------------------------------------------------
+
+func stateJSON(s *PState) map[string]any {
+	nn := func(l []string) []string {
+		if l == nil {
+			return []string{}
+		}
+		return l
+	}
+	meth := map[string]any{}
+	for f, ms := range s.Meth {
+		mm := map[string]any{}
+		for p, m := range ms {
+			mm[p] = map[string]any{"body": m.Body, "doc": m.Doc, "named": m.Named, "uses": nn(m.Uses)}
+		}
+		meth[f] = mm
+	}
+	sets := func(in map[string][]string) map[string]any {
+		o := map[string]any{}
+		for f, l := range in {
+			o[f] = nn(l)
+		}
+		return o
+	}
+	warn := map[string]any{}
+	for f, l := range s.Warn {
+		ws := []any{}
+		for _, w := range l {
+			ws = append(ws, map[string]any{"k": w.K, "id": w.ID, "body": w.Body, "named": w.Named, "uses": nn(w.Uses)})
+		}
+		warn[f] = ws
+	}
+	comp := s.Comp
+	if comp == "" {
+		comp = "unk"
+	}
+	return map[string]any{"schema": s.Schema, "texists": s.Texists, "cfg": map[string]any{"rl": s.Cfg.Rl, "el": s.Cfg.El},
+		"meth": meth, "helpers": sets(s.Helpers), "imports": sets(s.Imports), "warn": warn, "ok": s.Ok, "comp": comp, "dirty": s.Dirty}
+}
+
+func actionJSON(a PAction) map[string]any {
+	o := map[string]any{"name": a.Name, "f": a.F, "p": a.P, "q": a.Q, "t": a.T, "h": a.H, "i": a.I, "sf": a.Sf}
+	e := map[string]any{"body": "-", "doc": "-", "named": false}
+	if a.E != nil {
+		e = map[string]any{"body": a.E.Body, "doc": a.E.Doc, "named": a.E.Named}
+	}
+	o["e"] = e
+	return o
+}
+
+// JudgeSteps lets TLC (spec/ProjectStep.tla, MC_ProjectStep<npairs>.cfg)
+// evaluate every recorded edit / gen / probe step; fills rec.V.
+func JudgeSteps(recs []*StepRec, npairs int, scratch string) (states, generated int64, err error) {
+	var todo []*StepRec
+	for _, r := range recs {
+		if r.Kind != "init" && r.Pre != nil && r.Post != nil {
+			todo = append(todo, r)
+		}
+	}
+	const chunk = 2500
+	nchunks := (len(todo) + chunk - 1) / chunk
+	byID := map[string]*StepRec{}
+	for _, r := range todo {
+		byID[r.ID] = r
+	}
+	var mu sync.Mutex
+	var firstErr error
+	Parallel(nchunks, 3, func(ci int) {
+		lo, hi := ci*chunk, (ci+1)*chunk
+		if hi > len(todo) {
+			hi = len(todo)
+		}
+		var sb strings.Builder
+		for _, r := range todo[lo:hi] {
+			act := r.Act
+			if r.Kind == "probe" {
+				act = PAction{Name: "Generate"}
+			}
+			line, _ := json.Marshal(map[string]any{"id": r.ID, "pre": stateJSON(r.Pre), "a": actionJSON(act), "post": stateJSON(r.Post)})
+			sb.Write(line)
+			sb.WriteByte('\n')
+		}
+		res, err := vlib.RunTLC(vlib.TLCOpts{Module: "MC_ProjectStep", Config: fmt.Sprintf("MC_ProjectStep%d.cfg", npairs), Workers: 1,
+			Scratch: fmt.Sprintf("%s/judge%d", scratch, ci), Timeout: 20 * time.Minute, HeapGB: 6,
+			Data: map[string][]byte{"steps.ndjson": []byte(sb.String())}})
+		mu.Lock()
+		defer mu.Unlock()
+		if err != nil {
+			firstErr = err
+			return
+		}
+		if !res.OK {
+			firstErr = fmt.Errorf("TLC error in ProjectStep:\n%s", tailStr(res.Output, 3000))
+			return
+		}
+		states += res.Distinct
+		generated += res.Generated
+		for _, ln := range res.Printed {
+			if len(ln) < 2 || ln[0] != '"' {
+				continue
+			}
+			inner, err := strconv.Unquote(ln)
+			if err != nil {
+				continue
+			}
+			var v struct {
+				ID string `json:"id"`
+				Verdict
+				BlameRaw json.RawMessage `json:"blame"`
+			}
+			if err := json.Unmarshal([]byte(inner), &v); err != nil || v.ID == "" {
+				continue
+			}
+			vd := v.Verdict
+			vd.Blame = map[string][]string{}
+			if len(v.BlameRaw) > 0 && v.BlameRaw[0] == '{' {
+				_ = json.Unmarshal(v.BlameRaw, &vd.Blame)
+			}
+			if r := byID[v.ID]; r != nil {
+				r.V = &vd
+			}
+		}
+	})
+	return states, generated, firstErr
 }
 
 // SampleTries picks n Generate edges at random (seeded) among all edges
